@@ -223,15 +223,28 @@ htp_status_t htp_gzip_decompressor_decompress(htp_decompressor_t *drec1, htp_tx_
             dout.data = NULL;
         }
         dout.is_last = d->is_last;
-        if (drec->super.next != NULL && drec->zlib_initialized) {
-            return htp_gzip_decompressor_decompress(drec->super.next, &dout);
-        } else {
-            // Send decompressed data to the callback.
-            callback_rc = drec->super.callback(&dout);
-            if (callback_rc != HTP_OK) {
-                htp_gzip_decompressor_end(drec);
-                return callback_rc;
+        for (;;) {
+            if (drec->super.next != NULL && drec->zlib_initialized) {
+                callback_rc = htp_gzip_decompressor_decompress(drec->super.next, &dout);
+                if (callback_rc != HTP_OK) return callback_rc;
+            } else {
+                // Send decompressed data to the callback.
+                callback_rc = drec->super.callback(&dout);
+                if (callback_rc != HTP_OK) {
+                    htp_gzip_decompressor_end(drec);
+                    return callback_rc;
+                }
             }
+
+            // The end of the stream has been passed on.
+            if (dout.data == NULL) break;
+
+            // What was pending has been passed on as data; the end of
+            // the stream still has to be signalled.
+            drec->stream.next_out = drec->buffer;
+            drec->stream.avail_out = GZIP_BUF_SIZE;
+            dout.data = NULL;
+            dout.len = 0;
         }
 
         return HTP_OK;
